@@ -444,6 +444,9 @@ func redactPipelineStage(stage interface{}, redactFieldNames bool, keyPath []str
 							redactedArr[i] = redactPipelineStage(elem, redactFieldNames, newKeyPath, inSearchStage)
 						}
 						newMap.Set(redactedKey, redactedArr)
+					} else if doc, ok := v.(*orderedmap.OrderedMap[string, any]); ok {
+						// a single clause given as a document instead of an array of clauses (e.g. compound.must: {text: ...})
+						newMap.Set(redactedKey, redactPipelineStage(doc, redactFieldNames, newKeyPath, inSearchStage))
 					} else {
 						newMap.Set(redactedKey, v)
 					}
@@ -511,6 +514,9 @@ func redactPipelineStage(stage interface{}, redactFieldNames bool, keyPath []str
 											redactedArr[i] = redactPipelineStage(elem, redactFieldNames, newKeyPath, inSearchStage)
 										}
 										newSubMap.Set(subK, redactedArr)
+									} else if doc, ok := subV.(*orderedmap.OrderedMap[string, any]); ok {
+										// a single clause given as a document instead of an array of clauses
+										newSubMap.Set(subK, redactPipelineStage(doc, redactFieldNames, newKeyPath, inSearchStage))
 									} else {
 										newSubMap.Set(subK, subV)
 									}
